@@ -12,7 +12,7 @@ const { Rng, hashStr, clip, chunk } = require('../lib/util')
 const DIRECTIVES = ["'use strict'", '"use strict"', "'use asm'", '"use client"', "'use server'", "'ngInject'", "'other directive'", '"twelve chars!"', "'use strict'", "'don\\'t touch'", '"esc\\x41ped \\u0064irective"', "'line \\\ncontinuation'", "'use\\x20strict'", "''"]
 // statements that stand where a directive could stand but are NOT directives (they end the directive prologue and
 // must not turn into one: a template, a parenthesised string, a string followed by an operator)
-const PSEUDO = [";'use strict'", ';;"use strict"', '`use strict`', "('use strict')", "'use strict', 0", "'use strict'.length", 'String.raw`use strict`', "+'use strict'", "'use strict'\n+ ''", '`use strict` + 1']
+const PSEUDO = [";'use strict'", ';;"use strict"', '`use strict`', "('use strict')", "'use strict', 0", "'use strict'.length", 'String.raw`use strict`', "+'use strict'", "'use strict'\n+ ''", '`use strict` + 1', "void 0; 'use strict'", "var early = 1; 'use strict'; 'later string statement'"]
 const lastReturn = (b, w) => { const i = b.lastIndexOf('return '); return b.slice(0, i) + w + b.slice(i + 7) }
 const FUNCS = [
   (d, b) => `function fn() { ${d} ${b} }\nw.out(fn.call(undefined));`,
